@@ -148,7 +148,8 @@ func alphabet(stores []string, cfgs []cfg) []Step {
 // histories enumerates every sequence of 1..maxLen enabled steps (prefix-closed set). With firstS1 the
 // first created store is always S1 (store names are symmetric). With pairS2, S2 is only created with the
 // configuration complementary to the one of the first step (other slot length, other value placement).
-func histories(al []Step, maxLen int, firstS1, pairS2 bool) [][]Step {
+// firstCfgs (optional) restricts the configuration of the first step.
+func histories(al []Step, maxLen int, firstS1, pairS2 bool, firstCfgs []cfg) [][]Step {
 	var out [][]Step
 	var rec func(m Model, h []Step)
 	rec = func(m Model, h []Step) {
@@ -164,6 +165,15 @@ func histories(al []Step, maxLen int, firstS1, pairS2 bool) [][]Step {
 			}
 			if firstS1 && len(h) == 0 && s.Store != "S1" {
 				continue
+			}
+			if len(h) == 0 && firstCfgs != nil {
+				ok := false
+				for _, c := range firstCfgs {
+					ok = ok || (c.Slot == s.Slot && c.InNode == s.InNode)
+				}
+				if !ok {
+					continue
+				}
 			}
 			if pairS2 && len(h) > 0 && s.Kind == "create" && s.Store == "S2" && (s.Slot == h[0].Slot || s.InNode == h[0].InNode) {
 				continue
